@@ -129,13 +129,36 @@ def helper_signal(al, v):
   return sig * ctrl
 
 
+VTYPES = {"str": str, "bytes": bytes, "tuple": tuple, "list": list, "bytearray": bytearray, "float": float}
+
+
+def conv_val(vk, x):
+  """tokens -> value: str / bytes / tuple / list of ints; float from its hex string"""
+  if vk == "str": return "".join(chr(t) for t in x)
+  if vk == "bytes": return bytes(x)
+  if vk == "bytearray": return bytearray(x)
+  if vk == "tuple": return tuple(x)
+  if vk == "list": return list(x)
+  return float.fromhex(x)
+
+
+def obs_val(vk, v):
+  if type(v) is not VTYPES[vk]:
+    raise TypeError("WrongType")
+  if vk == "str": return [ord(ch) for ch in v]
+  if vk == "float": return v.hex()
+  return [int(t) for t in v]
+
+
 class MixRunner(object):
   def __init__(self, c):
     import audiolazy
     self.al = audiolazy
     zk, zv = c["zero"]
     keep, kk = c["keep"], c.get("keepk", "kw")
-    kw = {} if zk == "default" else {"zero": mk_zero(zk, zv)}
+    self.vk = c.get("vkind")      # round 3: str / bytes / tuple / float values instead of exact rationals
+    if self.vk: kw = {"zero": conv_val(self.vk, zv)}
+    else: kw = {} if zk == "default" else {"zero": mk_zero(zk, zv)}
     if kk == "pos" and kw: self.sm = audiolazy.Streamix(keep, kw["zero"])
     elif kk == "int": self.sm = audiolazy.Streamix(int(keep), **kw)
     elif kk == "attr":
@@ -159,7 +182,7 @@ class MixRunner(object):
         return None
       if op[0] == "add":
         o = op[3] if len(op) > 3 else {}
-        items = [mk_item(x, o.get("ik", "q")) for x in op[2]]
+        items = [conv_val(self.vk, x) for x in op[2]] if self.vk else [mk_item(x, o.get("ik", "q")) for x in op[2]]
         if "same" in o: data = self.objs[o["same"]]
         else:
           data, w = mk_event(self.al, o.get("ek", "list"), items)
@@ -178,7 +201,7 @@ class MixRunner(object):
       src = self.sm if self.der is None else self.der
       try:
         v = next(src) if (self.unext and self.der is not None) else src.take()
-        return ["item", fr(to_frac(v))]
+        return ["item", obs_val(self.vk, v) if self.vk else fr(to_frac(v))]
       except StopIteration:
         return ["stop"]
     except Exception as e:
